@@ -46,6 +46,7 @@ EXPLANATION = (
   ' (DIV-parsed) no count that the STL reader parses from the file or takes from its caller (number of TTI blocks, maximum number of rows) is used as a divisor unless it has been made positive after it was set, so a count of 0 cannot raise ZeroDivisionError;'
   ' (LOOP-break) no loop over the items of a collection is left by a branch that does nothing but `break` on a test about the item (end-of-input sentinels, flags set in the loop body and searches whose variable is read afterwards excepted): an item that is to be skipped does not end the processing of the items after it;'
   " (TERM-refs) merge_chained_styles takes a style reference out of the element's list before it follows it, so a cycle of style references ends instead of recursing until RecursionError;"
+  + " (PRUNE-sites) every `return None` of ISD._process_element is one of the grounds for leaving an element out of a snapshot - inactive at the offset, another region, display=none, the final emptiness rule; any other site, evaluated over every element kind with and without children, drops only what the final rule would drop (never an element with children, never an empty part of a ruby container);"
 )
 RULE_TEXT = "per function / class / dereference / extraction site / raise statement"
 UNDECIDED = ["termination", "RecursionError (input-depth recursion exists in from_xml, dfs_iterator, _process_element)", "TypeError / AssertionError guarded by data-dependent invariants",
@@ -242,6 +243,8 @@ def check_optional_fields(ctx):
 
 
 def run(ctx):
+  from ..rules import isdrules as _isdr
+  ctx.floor("PRUNE-sites", "`return None` sites of _process_element", _isdr.check_prune_sites(ctx, ctx.ix.func("ttconv.isd:ISD._process_element")), 4)
   ix = ctx.ix
   ty = Typer(ix)
   fs = common.scope_funcs(ctx, MODS)
